@@ -42,7 +42,8 @@ def prepare(k):
     rc, out = sh(f"rsync -a --exclude .git --exclude seeded --exclude replays --exclude .work --exclude __pycache__ {VERIF}/ {v}/")
     assert rc == 0, out
     for f, pat in (("tools/vlib.py", 'REPO = "/repo"'), ("tools/translate.py", 'REPO = "/repo"'),
-                   ("tools/translate_formulas.py", 'src = "/repo/src"'), ("harness/Cargo.toml", 'path = "/repo"')):
+                   ("tools/translate_formulas.py", 'src = "/repo/src"'),
+                   ("tools/translate_control.py", 'src = "/repo/src"'), ("harness/Cargo.toml", 'path = "/repo"')):
         p = os.path.join(v, f)
         t = open(p).read()
         assert pat in t, (f, pat)
